@@ -168,7 +168,9 @@ def evaluate__minus_operator(self: XPathToken, context: ta.ContextType = None) \
 @method('+')
 @method('-')
 def nud__plus_minus_operators(self: XPathToken) -> XPathToken:
-    self[:] = self.parser.expression(rbp=70),
+    # XPath 1.0: UnaryExpr ::= UnionExpr | '-' UnaryExpr (the union binds tighter),
+    # XPath 2.0+: the unary operators bind tighter than 'union' and '|'
+    self[:] = self.parser.expression(rbp=47 if self.parser.version == '1.0' else 70),
     return self
 
 
